@@ -142,10 +142,12 @@ REQ_HEADERS = [
     ['X-A: 1'], ['Accept: */*'], ['User-Agent: sim/1.0 (x; y) z/2'], ['Cookie: a=b; c=d'], ['X-Empty:'], ['X-Sp:   padded value  '],
     ['X-Fold: part1', ' part2', '\tpart3'], ['X-Dup: 1', 'X-Dup: 2'], ['x-lower: v'], ['X-Colon: a:b:c'], ['X-Long: ' + 'v' * 300],
     ['Accept-Language: en, de;q=0.5'], ['X-Fold2: a', '  b'], ['Content-Type: text/plain'],
+    ['Upgrade: h2c', 'Connection: Upgrade, HTTP2-Settings', 'HTTP2-Settings: AAMAAABkAARAAAAAAAIAAAAA'],      # what curl --http2 sends with every plain request
 ]
 RES_HEADERS = [
     ['Content-Type: text/plain'], ['Server: sim/1.0'], ['X-A: 1'], ['Set-Cookie: a=b', 'Set-Cookie: c=d; Path=/'], ['X-Empty:'],
     ['X-Fold: part1', ' part2'], ['X-Long: ' + 'v' * 200], ['Date: Tue, 14 Nov 2023 22:13:20 GMT'], ['x-lower: v'], ['Cache-Control: no-cache, no-store'],
+    ['Upgrade: h2,h2c', 'Connection: Upgrade'],      # an upgrade OFFER on an ordinary response (Apache with mod_http2 adds it to plain responses)
 ]
 CHUNK_SIZES = [5, 1, 2, 10, 16, 17, 40, 255, 300]
 CHUNK_EXTS = ['', '', ';x', ';ext=1', ';a=b;c="d e"']
